@@ -10,6 +10,6 @@ for f in ("patch.diff", "demo.cpp", "NOTES.md"):
 meta = {"property": c}
 meta.update(frag)
 meta.setdefault("initially_missed_by", [])
-meta.setdefault("what_i_ran", "(1) tools/confirm_seedn.sh 6: built the authoring worktree and the frozen pristine checkout (at /repo HEAD 2e51965) with the same script; demo.cpp exits 0 on pristine and 1 with the change (re-run by me); patch.diff equals the worktree diff; (2) tools/try_seed.sh: git -C /repo apply patch.diff; /venv/bin/python verif.py check <Cxx> --tier quick (VERIF_SEED=1); git -C /repo checkout -- .")
+meta.setdefault("what_i_ran", "(1) tools/confirm_seedn.sh 6: built the authoring worktree and the frozen pristine checkout (at /repo HEAD 07e6ee0) with the same script; demo.cpp exits 0 on pristine and 1 with the change (re-run by me); patch.diff equals the worktree diff; (2) tools/try_seed.sh: git -C /repo apply patch.diff; /venv/bin/python verif.py check <Cxx> --tier quick (VERIF_SEED=1); git -C /repo checkout -- .")
 (dst / "meta.json").write_text(json.dumps(meta, indent=1))
 print("packed", dst)
